@@ -71,7 +71,10 @@ func (ex *Exec) setupGhostsAndSpecs() error {
 		ensureIntrinsics(pk.Types)
 		sig, err := sigOf(pk, pkgPos(pk, g.Scope), g.Sig)
 		if err != nil {
-			return fmt.Errorf("%s:%d: ghost %s: %v", g.File, g.Line, g.Name, err)
+			// not fatal for the run: the clauses that use the declaration stop type-checking and
+			// their functions are reported individually
+			ex.declErrors = append(ex.declErrors, fmt.Sprintf("%s:%d: ghost %s: %v", g.File, g.Line, g.Name, err))
+			continue
 		}
 		if pk.Types.Scope().Lookup(g.Name) == nil {
 			pk.Types.Scope().Insert(types.NewFunc(token.NoPos, pk.Types, g.Name, sig))
@@ -101,7 +104,8 @@ func (ex *Exec) setupGhostsAndSpecs() error {
 		pos := pkgPos(pk, s.Scope)
 		sig, err := sigOf(pk, pos, sigText)
 		if err != nil {
-			return fmt.Errorf("%s:%d: spec func %s: %v", s.File, s.Line, s.Name, err)
+			ex.declErrors = append(ex.declErrors, fmt.Sprintf("%s:%d: spec func %s: %v", s.File, s.Line, s.Name, err))
+			continue
 		}
 		if pk.Types.Scope().Lookup(s.Name) == nil {
 			pk.Types.Scope().Insert(types.NewFunc(token.NoPos, pk.Types, s.Name, sig))
